@@ -7,6 +7,8 @@ from persim import _verif
 def arr(x, kind):
     if kind == "list":
         return [list(map(float, r)) for r in x]
+    if kind in ("uint8", "int8", "uint16", "int16", "int32", "uint32", "int64"):
+        return np.array([[int(v) for v in r] for r in x], dtype=kind).reshape(-1, 2)
     a = np.array(x, dtype=float).reshape(-1, 2)
     return a
 
